@@ -1,4 +1,5 @@
 import PbProofs.Dask
+import PbModel.Gen.Dask
 
 /-! # C09 — Dask-backed signals give identical results, lazily, for any chunks or scheduler
 
@@ -60,6 +61,31 @@ theorem C09_schedule_confluence {α} [Inhabited α] (g : Graph α) (hT : Topo g)
   intro i v1 v2 h1 h2
   rw [consistent_denote g hT _ c1 i v1 h1 (i + 1) (Nat.lt_succ_self i),
       consistent_denote g hT _ c2 i v2 h2 (i + 1) (Nat.lt_succ_self i)]
+
+/-- **translator tie** (regenerated from the sources on every run): the only calls that materialise
+a Dask array are `Signal.compute` and `Signal.persist` — no transform, reader or utility computes
+its input while building a result; every `dask.delayed` task is declared pure; the Dask index
+arrays broadcast along time are single-chunk (`chunks=(-1,)`); graphs are built only through
+`map_blocks`, `from_delayed`, `fft_wrap` and `asanyarray`; and no site passes an explicit task or
+array name, so Dask derives every task name from all of the task's arguments (no collisions between
+results that differ in any argument). -/
+theorem C09_source_sites :
+    Gen.Dask.extractOk = true ∧
+    Gen.Dask.materialising = ["core.py:Signal.compute:compute", "core.py:Signal.persist:persist"] ∧
+    (∀ s ∈ Gen.Dask.delayedPure, s.endsWith ":True" = true) ∧ Gen.Dask.delayedPure.length = 2 ∧
+    (∀ s ∈ Gen.Dask.indexChunks, s.endsWith ":(-1,)" = true) ∧ Gen.Dask.indexChunks.length = 2 ∧
+    Gen.Dask.constructors = ["core.py:Signal.rechunk:asanyarray", "core.py:Signal.to_dask_array:asanyarray",
+      "fft.py:_:fft_wrap", "readers/_base.py:BaseReader._read_data:from_delayed",
+      "transforms/dedispersion.py:DispersionMeasure.chirp_function:from_delayed",
+      "transforms/transforms.py:wrapper:map_blocks"] ∧
+    Gen.Dask.explicitNames = [] := by
+  refine ⟨by decide, by decide, ?_, by decide, ?_, by decide, by decide, by decide⟩
+  · intro s hs
+    simp only [Gen.Dask.delayedPure, List.mem_cons, List.not_mem_nil, or_false] at hs
+    rcases hs with rfl | rfl <;> decide +kernel
+  · intro s hs
+    simp only [Gen.Dask.indexChunks, List.mem_cons, List.not_mem_nil, or_false] at hs
+    rcases hs with rfl | rfl <;> decide +kernel
 
 /-! Non-vacuity: a diamond graph (0 → 1, 0 → 2, {1,2} → 3) run under two different schedules. -/
 def diamond : Graph Int where
